@@ -116,6 +116,9 @@ func CheckOutcome(cmd *Cmd, ex Expect, got Outcome, mt *MTable) (fails []Fail, q
 			add("C01.get", "GetItem returned %s, model %s", got.Item.Canon(), want.Item.Canon())
 		}
 	case "Update", "Delete":
+		if cmd.RetVal != "" {
+			break // another ReturnValues than the harness default: what comes back is not compared
+		}
 		if !itemsEq(got.Item, want.Item) {
 			add("C01.ret", "%s returned %s, model %s", cmd.Op, got.Item.Canon(), want.Item.Canon())
 		}
